@@ -17,6 +17,19 @@
 (*            are within tolerance of the returned number (eps as instantiated)     *)
 (*   dn, dd (kind rs): the rational cosine dn/dd the returned angle is within       *)
 (*            tolerance of (the adapter tests the exported expectation)             *)
+(*   tc, uin, sh (many-turn evaluations, Sphere.tla 3b): tc = the class of pairs     *)
+(*            under which the evaluation is decidable although the doubles handed    *)
+(*            to the code are displaced from the lattice longitudes ("none" for the  *)
+(*            ordinary evaluations), uin = the input unit, sh = the adapter has      *)
+(*            subtracted the exactly known effect of the displacement from the       *)
+(*            returned number before projecting it.  The module checks that the      *)
+(*            claimed class really holds for the case (bad_turn_class = machinery).  *)
+(* case    [kind |-> "gcs", p, q, n, T, rot, t]: tile position t (0-based) of a large *)
+(*         array call of n pairs that repeats a tile of T pairs from offset rot       *)
+(*         (Sphere.tla 3a: element k shows tile position (k + rot) % T, law GThmCycle);*)
+(*         every outcome carries cnt = the number of elements of the large result at  *)
+(*         that tile position which returned it (0 for the call on the tile alone);    *)
+(*         clause scale_complete: the counts add up to GCycleCount(n, T, rot, t).      *)
 (* A class collects calls f(p,q) and f(q,p) with any multiples of 360 degrees added *)
 (* to the longitudes: by GThmSymmetric and GThmWrap - checked by TLC in SphereMC on *)
 (* exactly the exported pairs - the exact separation is the same for all of them,   *)
@@ -38,28 +51,43 @@ PickTrace == blk > 0 /\ tid = 0
 Next == PickBlock \/ PickTrace
 
 \* "identical inputs": the same coordinates were passed for both points
-Identical(c, o) == o.samewrap /\ (IF c.kind = "gc" THEN GIdentical(c.p, c.q) ELSE c.u = c.v)
+IsGC(c) == c.kind \in {"gc", "gcs"}
+Identical(c, o) == o.samewrap /\ (IF IsGC(c) THEN GIdentical(c.p, c.q) ELSE c.u = c.v)
+
+\* the claimed many-turn class holds for the case
+TurnOK(c, o) == IF IsGC(c)
+                THEN /\ o.tc \in GTurnClasses /\ GTurnClassOK(o.tc, c.p, c.q)
+                     /\ (o.tc = "exact" => o.uin = "deg") /\ (o.tc = "samelon" => o.samewrap)
+                     /\ (o.sh => o.tc = "equator")
+                ELSE o.tc = "none" /\ ~o.sh
 
 Accurate(c, o) ==
     /\ o.on
-    /\ IF c.kind = "gc"
+    /\ IF IsGC(c)
        THEN LET s == SepGC(c.p, c.q)
             IN s[1] = o.a /\ o.blo <= s[2] /\ s[2] <= o.bhi
        ELSE o.dd > 0 /\ REq(<<o.dn, o.dd>>, CosSep(c.u, c.v))
 
 FailingObs(c, o) ==
-    IF o.err # "none" THEN {"no_error"}
+    IF ~TurnOK(c, o) THEN {"bad_turn_class"}
+    ELSE IF o.err # "none" THEN {"no_error"}
     ELSE (IF o.fin THEN {} ELSE {"finite"}) \cup
          (IF o.rng THEN {} ELSE {"range"}) \cup
          (IF Identical(c, o) /\ ~o.zero THEN {"zero_identical"} ELSE {}) \cup
          (IF ~o.fin \/ Accurate(c, o) THEN {} ELSE {"accuracy"})
 
-WellFormed(c) == IF c.kind = "gc" THEN GValid(c.p) /\ GValid(c.q) /\ GDefined(c.p, c.q)
+WellFormed(c) == IF IsGC(c) THEN /\ GValid(c.p) /\ GValid(c.q) /\ GDefined(c.p, c.q)
+                                    /\ (c.kind = "gcs" => c.T > 0 /\ c.t >= 0 /\ c.t < c.T /\ c.n >= 0 /\ c.rot >= 0)
                  ELSE SIsUnit(c.u) /\ SIsUnit(c.v)
+
+\* a large call returned exactly one value for every element that shows this tile position
+ScaleComplete(r) == r.c.kind = "gcs" =>
+    VSum([n \in DOMAIN r.obs |-> r.obs[n].cnt]) = GCycleCount(r.c.n, r.c.T, r.c.rot, r.c.t)
 
 FailingRec(r) ==
     IF ~WellFormed(r.c) THEN {<<"malformed_case", 0>>}
     ELSE UNION {{<<cl, r.obs[n].k>> : cl \in FailingObs(r.c, r.obs[n])} : n \in DOMAIN r.obs}
+         \cup (IF ScaleComplete(r) THEN {} ELSE {<<"scale_complete", 0>>})
 
 Check == tid > 0 =>
     LET r == Traces[tid]  f == FailingRec(r)
